@@ -140,6 +140,15 @@ async fn forger(
             let dup = nodes[0];
             nodes.push(dup);
         }
+        // entries built around the target of one of the running searches: one id under several
+        // addresses, the farthest / the closest possible id
+        if rng.gen_bool(0.3) {
+            if let Some((_, k)) = get_peers.choose(&mut rng) {
+                if let Body::Query { q: Query::GetPeers { info_hash, .. }, .. } = &k.body {
+                    nodes.extend(crate::world::hostile_entries(info_hash, n as u32, v6));
+                }
+            }
+        }
         if v6 {
             reply.nodes6 = nodes;
         } else {
